@@ -72,7 +72,13 @@ def main():
         out.append(r)
         print(json.dumps(r), flush=True)
     caught = sum(1 for r in out if r.get("status") == "CAUGHT")
-    print(f"{caught}/{len(out)} mutants caught")
+    exp = {m["id"]: m.get("expect", "CAUGHT") for m in cat}
+    as_expected = sum(1 for r in out if r.get("status") == exp.get(r["id"], "CAUGHT"))
+    print(f"{caught}/{len(out)} mutants caught; {as_expected}/{len(out)} verdicts as expected "
+          f"(expected misses are benign refactors / property-preserving changes that must NOT raise an alarm)")
+    for r in out:
+        if r.get("status") != exp.get(r["id"], "CAUGHT"):
+            print("UNEXPECTED:", r["id"], r.get("status"))
 
 
 if __name__ == "__main__":
